@@ -473,6 +473,19 @@ Proof.
     simpl fst. rewrite fold_left_exec_app.
     apply (inv_push_diag _ _ (inv_nofld _ _ I (nofld_lockp _ _ _))).
     apply relock_covered. eauto.
+  - (* FieldNeg *)
+    destruct (nth_error (flds s) f) as [a |]; [| exact I].
+    destruct (any_at s a) as [y |]; [| exact I].
+    simpl fst.
+    match goal with |- inv (fold_left exec (PFresh ?v true :: _) s) =>
+      change (inv (fold_left exec ([PFresh v true; PWrap (length (nds s))] ++ lockp true (length (nds s)) (length (anys s)) ++ [PFld (length (anys s))]) s));
+      set (vv := v) end.
+    rewrite !fold_left_exec_app.
+    set (s0 := fold_left exec [PFresh vv true; PWrap (length (nds s))] s).
+    assert (inv s0) as I0 by (apply inv_nofld; auto).
+    destruct (fresh_src_ok s vv true W) as (_ & Ha & Hd & Hs).
+    apply (inv_push_fld _ _ (inv_nofld _ _ I0 (nofld_lockp _ _ _))).
+    apply (lock_covered s0 (length (anys s)) (mkAny (length (nds s)) true) _ (proj1 I0) Ha Hd Hs).
 Qed.
 
 Local Transparent lockp.
@@ -744,6 +757,10 @@ Proof.
     constructor; [simpl; eapply nd_val_len; eauto |]. constructor; simpl; auto.
     apply Forall_app_intro; [apply lockp_vals | repeat constructor].
   - destruct (nth_error (flds s) f); simpl; auto. destruct (any_at s n); simpl; auto.
+    apply Forall_app_intro; [apply lockp_vals | repeat constructor].
+  - destruct (nth_error (flds s) f); simpl; auto. destruct (any_at s n) as [y |] eqn:E; simpl; auto.
+    destruct (any_nd _ _ _ W E) as [d Hd].
+    constructor; [simpl; rewrite map_length; eapply nd_val_len; eauto |]. constructor; simpl; auto.
     apply Forall_app_intro; [apply lockp_vals | repeat constructor].
 Qed.
 
